@@ -41,6 +41,7 @@ Step(t, e) ==
          IN [t4 EXCEPT !.returns = @ + 1]
     [] e.ev = "never_returned" -> Viol(t0, e, "the run did not return within timeout + 1 s (nor within 60 s)")
     [] e.ev = "end" -> IF t.returns = 1 \/ t.returns = 0 THEN t0 ELSE t0
+    [] e.ev = "hang" -> Viol(t0, e, "the run did not return: the scenario never ended (" \o e.why \o ")")
     [] e.ev = "panic" -> t0      \* an application that panics ends the process; C13 does not speak about it
     [] OTHER -> t0
 Init == l = 1 /\ s = Init0
